@@ -61,31 +61,40 @@ Record deviations := {
   d_leak_dm : bool;          (* D150 default subsystem half of D19: a cancelled wait never stops its decorators *)
   d_now_restarts : bool;     (* D151 legacy: `now` of once(now + o) is re-read at every wake-up of the loop *)
   d_badexpr_leak : bool;     (* D152 legacy: an unparsable mqtt/webhook condition releases the state subscription only *)
-  d_none_eager : bool        (* D153 default subsystem: 'none' as soon as the time triggers are exhausted, whatever else is awaited *)
+  d_none_eager : bool;       (* D153 default subsystem: 'none' as soon as the time triggers are exhausted, whatever else is awaited *)
+  d_hold_latest : bool;      (* D154 default subsystem: after state_hold the dict of the LATEST still-true change is returned *)
+  d_hold_attr_cancels : bool (* D155 default subsystem: an attribute-only update counts as a false evaluation and cancels a pending state_hold *)
 }.
 Definition all_off : deviations :=
   {| d_timeout0_falsy := false; d_leak_legacy := false; d_leak_dm := false; d_now_restarts := false;
-     d_badexpr_leak := false; d_none_eager := false |}.
+     d_badexpr_leak := false; d_none_eager := false; d_hold_latest := false; d_hold_attr_cancels := false |}.
 
 (* exactly one switch on: the code's behaviour for one finding in isolation *)
 Definition only_D18 : deviations :=
   {| d_timeout0_falsy := true; d_leak_legacy := false; d_leak_dm := false; d_now_restarts := false;
-     d_badexpr_leak := false; d_none_eager := false |}.
+     d_badexpr_leak := false; d_none_eager := false; d_hold_latest := false; d_hold_attr_cancels := false |}.
 Definition only_D19 : deviations :=
   {| d_timeout0_falsy := false; d_leak_legacy := true; d_leak_dm := false; d_now_restarts := false;
-     d_badexpr_leak := false; d_none_eager := false |}.
+     d_badexpr_leak := false; d_none_eager := false; d_hold_latest := false; d_hold_attr_cancels := false |}.
 Definition only_D150 : deviations :=
   {| d_timeout0_falsy := false; d_leak_legacy := false; d_leak_dm := true; d_now_restarts := false;
-     d_badexpr_leak := false; d_none_eager := false |}.
+     d_badexpr_leak := false; d_none_eager := false; d_hold_latest := false; d_hold_attr_cancels := false |}.
 Definition only_D151 : deviations :=
   {| d_timeout0_falsy := false; d_leak_legacy := false; d_leak_dm := false; d_now_restarts := true;
-     d_badexpr_leak := false; d_none_eager := false |}.
+     d_badexpr_leak := false; d_none_eager := false; d_hold_latest := false; d_hold_attr_cancels := false |}.
 Definition only_D152 : deviations :=
   {| d_timeout0_falsy := false; d_leak_legacy := false; d_leak_dm := false; d_now_restarts := false;
-     d_badexpr_leak := true; d_none_eager := false |}.
+     d_badexpr_leak := true; d_none_eager := false; d_hold_latest := false; d_hold_attr_cancels := false |}.
 Definition only_D153 : deviations :=
   {| d_timeout0_falsy := false; d_leak_legacy := false; d_leak_dm := false; d_now_restarts := false;
-     d_badexpr_leak := false; d_none_eager := true |}.
+     d_badexpr_leak := false; d_none_eager := true; d_hold_latest := false; d_hold_attr_cancels := false |}.
+
+Definition only_D154 : deviations :=
+  {| d_timeout0_falsy := false; d_leak_legacy := false; d_leak_dm := false; d_now_restarts := false;
+     d_badexpr_leak := false; d_none_eager := false; d_hold_latest := true; d_hold_attr_cancels := false |}.
+Definition only_D155 : deviations :=
+  {| d_timeout0_falsy := false; d_leak_legacy := false; d_leak_dm := false; d_now_restarts := false;
+     d_badexpr_leak := false; d_none_eager := false; d_hold_latest := false; d_hold_attr_cancels := true |}.
 
 (* ---------- helpers ---------- *)
 (* value of the state expression at the call: the last change before it *)
@@ -117,6 +126,8 @@ Record lparams := {
   lp_timeout : option Z;      (* effective timeout *)
   lp_restart : bool;          (* every wake-up re-bases the time triggers *)
   lp_leak : bool;             (* cancellation skips the epilogue *)
+  lp_latest : bool;           (* a still-true change during a hold period replaces the dictionary to return *)
+  lp_attr_false : bool;       (* an attribute-only update ends a running hold period *)
   lp_subs : ledger            (* what the prologue registered *)
 }.
 
@@ -146,7 +157,8 @@ Fixpoint loop (p : lparams) (L : ledger) (base : Z) (hp : option (Z * N)) (h : h
         match o with
         | OCancel => done XCancelled t (if lp_leak p then L else release)
         | OUnw => loop p L base hp rest
-        | OAttr _ => if lp_state p then loop p L (wake p base t) hp rest else loop p L base hp rest
+        | OAttr _ => if lp_state p then loop p L (wake p base t) (if lp_attr_false p then None else hp) rest
+                     else loop p L base hp rest
         | OState r n =>
             if lp_state p then
               match r with
@@ -154,7 +166,11 @@ Fixpoint loop (p : lparams) (L : ledger) (base : Z) (hp : option (Z * N)) (h : h
               | STrue =>
                   match lp_hold p with
                   | None => done (XRet (RState n)) t release
-                  | Some _ => loop p L (wake p base t) (match hp with None => Some (t, n) | Some _ => hp end) rest
+                  | Some _ => loop p L (wake p base t)
+                                   (match hp with
+                                    | None => Some (t, n)                       (* the hold period starts *)
+                                    | Some (ts, m) => Some (ts, if lp_latest p then n else m)   (* never restarted *)
+                                    end) rest
                   end
               | SFalse => loop p L (wake p base t) None rest
               end
@@ -175,9 +191,9 @@ Fixpoint loop (p : lparams) (L : ledger) (base : Z) (hp : option (Z * N)) (h : h
   end.
 
 (* ---------- prologues ---------- *)
-Definition mkp (a : wargs) (timeout : option Z) (restart leak : bool) (subs : ledger) : lparams :=
+Definition mkp (a : wargs) (timeout : option Z) (restart leak latest attr_false : bool) (subs : ledger) : lparams :=
   {| lp_state := a_state a; lp_event := a_event a; lp_hold := a_hold a; lp_offs := future_offs a; lp_timeout := timeout;
-     lp_restart := restart; lp_leak := leak; lp_subs := subs |}.
+     lp_restart := restart; lp_leak := leak; lp_latest := latest; lp_attr_false := attr_false; lp_subs := subs |}.
 
 Definition cn_eff (legacy : bool) (a : wargs) : bool :=
   match a_cn a with Some b => b | None => if legacy then wu_legacy_cn_default else wu_dm_cn_default end.
@@ -207,7 +223,7 @@ Definition run_legacy (cfg : deviations) (a : wargs) (L0 : ledger) (truth : sres
     (* l.237-247: nothing to wait for: sleep(timeout) or 'none'; nothing is registered *)
     match a_timeout a with
     | None => done (XRet RNone) 0 L0
-    | Some T => loop (mkp a (Some T) false false lg_zero) L0 0 None h      (* no state/event/time trigger in [a] *)
+    | Some T => loop (mkp a (Some T) false false false false lg_zero) L0 0 None h      (* no state/event/time trigger in [a] *)
     end
   else
     match immediate (cn_eff true a) a truth with
@@ -225,7 +241,7 @@ Definition run_legacy (cfg : deviations) (a : wargs) (L0 : ledger) (truth : sres
              && match offs, a_timeout a with [], None => true | _, _ => false end
           then done (XRet RNone) 0 (lg_sub L1 (lg_add (legacy_state_subs a) (legacy_event_subs a)))   (* l.423-435 *)
           else
-            loop (mkp a (a_timeout a) (d_now_restarts cfg) (d_leak_legacy cfg)
+            loop (mkp a (a_timeout a) (d_now_restarts cfg) (d_leak_legacy cfg) false false
                       (lg_add (legacy_state_subs a) (legacy_event_subs a))) L1 0 hp0 h
     end.
 
@@ -261,7 +277,7 @@ Definition run_dm (cfg : deviations) (a : wargs) (L0 : ledger) (truth : sres) (h
           then done (XRet RNone) 0 L0                          (* timing.py _cycle: time_next is None -> dispatch 'none' *)
           else
             let subs := dm_subs cfg a in
-            loop (mkp a T false (d_leak_dm cfg) subs) (lg_add L0 subs) 0 hp0 h
+            loop (mkp a T false (d_leak_dm cfg) (d_hold_latest cfg) (d_hold_attr_cancels cfg) subs) (lg_add L0 subs) 0 hp0 h
       end.
 
 Definition run (cfg : deviations) (legacy : bool) (a : wargs) (L0 : ledger) (init : sres) (pre h : hist) : result :=
